@@ -18,7 +18,7 @@ from . import common, mapfam
 
 ID = 'C18'
 LEVEL = 'exploration'
-QUOTA = {'quick': 360, 'thorough': 6000}
+QUOTA = {'quick': 600, 'thorough': 6000}
 BUDGET = {'quick': 110, 'thorough': 900}
 RULE = ('scenario = generated reference with separable clusters pushed through the four real stages (statistics, '
         'reference markers, query markers, mapping), each pool under its own seeded schedule; the query holds every '
